@@ -644,7 +644,7 @@ def pairs_for(ctx, mods):
 
 def run(ctx):
     _VCOUNT.clear()
-    st = translate.run(["TempArith", "AccessorArith", "Packs", "Pinned"])
+    st = translate.run(["TempArith", "AccessorArith", "Packs", "Pinned", "Skeletons"])
     ctx.cov["translator"] = st
     for k, v in st.items():
         if v != "ok":
